@@ -34,14 +34,14 @@ def run_variant(ctx, binary, seed, nblocks, db, restart, gomaxprocs, tag, split=
 
 def run(ctx):
     binary = vlib.go_build("history", ctx)
-    nblocks = 6 if ctx.tier == "quick" else 8
+    nblocks = 8 if ctx.tier == "quick" else 10
     allmask = (1 << nblocks) - 1
     if ctx.tier == "quick":
         seeds = [ctx.seed]
         variants = [("memdb", allmask, 1, 0), ("goleveldb", 0b101010, 16, 0), ("pebbledb", 0b010101, 16, 0), ("boltdb", allmask, 2, 0), ("memdb", 0, 16, 0),
-                    ("goleveldb", 0, 16, 3), ("pebbledb", 0, 4, 4)]
+                    ("goleveldb", 0, 16, 3), ("pebbledb", 0, 4, 5)]
     else:
-        seeds = [ctx.seed * 7 + k for k in range(5)]
+        seeds = [ctx.seed * 7 + k for k in range(3)]
         variants = []
         for db in ("memdb", "goleveldb", "pebbledb", "boltdb"):
             for mask in (0, allmask, 0b10101010, 0b01010101, 0b00011000, 1 << (nblocks - 1)):
